@@ -49,7 +49,8 @@ func drawFault(src *choice.Src, nclients int) *sw.Fault {
 		if src.Bool(1, 6) {
 			f.Kind = sw.BenignNetKinds[src.Intn(len(sw.BenignNetKinds))]
 		} else {
-			f.Kind = sw.NetFaultKinds[src.Intn(len(sw.NetFaultKinds))]
+			all := append(append([]string{}, sw.NetFaultKinds...), sw.DiskAssistedNetKinds...)
+			f.Kind = all[src.Intn(len(all))]
 		}
 	case strings.HasPrefix(f.Class, "cache:read"):
 		f.Kind = c01CacheKinds[src.Intn(len(c01CacheKinds))]
@@ -72,7 +73,7 @@ func drawFault(src *choice.Src, nclients int) *sw.Fault {
 // other half of that situation: the client authenticates the record against the newer head it holds in
 // memory and caches the spliced answer; if that newer head never reaches the configuration (write error,
 // or a crash between installing it in memory and writing it) the next process cannot validate the entry.
-var diskFaultKinds = map[string]bool{"cache-bitflip": true, "cache-truncate": true, "cache-write-torn": true, "cache-cross": true, "cache-garbage": true, "cache-swap": true, "config-write-error": true, "stale-splice": true}
+var diskFaultKinds = map[string]bool{"cache-bitflip": true, "cache-truncate": true, "cache-write-torn": true, "cache-cross": true, "cache-garbage": true, "cache-swap": true, "config-write-error": true, "stale-splice": true, "cache-forged-leaf-tile-planted": true}
 
 // substitutionKinds deliver an AUTHENTIC record that is not the one asked for. The client accepts and
 // caches it under the requested name (it authenticates records, not their relation to the request), so
@@ -412,7 +413,7 @@ func c01SweepRun(src *choice.Src) *core.Result {
 	sc.size0 = int64(n)
 	id := int64(src.Intn(n))
 	warm := src.Intn(3) // 0 cold; 1 another client looked up record 0 before; 2 the same record was looked up before by another client
-	kind := src.Intn(len(sw.NetFaultKinds) + len(sw.BenignNetKinds) + 1)
+	kind := src.Intn(len(sw.NetFaultKinds) + len(sw.BenignNetKinds) + len(sw.DiskAssistedNetKinds) + 1)
 	ord := src.Intn(16)
 	a, b := src.Raw(), src.Raw()
 	m := sc.uni.Mods[id]
@@ -434,7 +435,7 @@ func c01SweepRun(src *choice.Src) *core.Result {
 	}
 	sc.startAt = append(sc.startAt, start)
 	if kind > 0 {
-		all := append(append([]string{}, sw.NetFaultKinds...), sw.BenignNetKinds...)
+		all := append(append(append([]string{}, sw.NetFaultKinds...), sw.BenignNetKinds...), sw.DiskAssistedNetKinds...)
 		sc.faults = []*sw.Fault{{Client: client, Class: "net:any", Occ: ord, Kind: all[kind-1], A: a, B: b}}
 	}
 	res.Logf("C01 sweep: height %d, log %d, record %d, warm %d, fault %v", sc.height, n, id, warm, sc.faults)
@@ -451,7 +452,7 @@ func c01Enumerate(quick bool, seed uint64, shard, nshards int, emit func([]uint6
 		maxH, maxN, maxOrd = 2, 12, 6
 		warms = []int{0, 2}
 	}
-	nk := len(sw.NetFaultKinds) + len(sw.BenignNetKinds)
+	nk := len(sw.NetFaultKinds) + len(sw.BenignNetKinds) + len(sw.DiskAssistedNetKinds)
 	k := 0
 	for h := 1; h <= maxH; h++ {
 		for n := 1; n <= maxN; n++ {
